@@ -53,6 +53,10 @@ fn main() {
         usage();
     }
     let prop = args[1].to_uppercase();
+    if prop == "_C18" {
+        props::c18::child(&args[2..]);
+        return;
+    }
     if prop == "_TZ" {
         // debug: offsets of a zone, `ohmc _TZ Europe/Lisbon 1992-09-26T20:00 40`
         use chrono::{Offset, TimeZone};
